@@ -317,6 +317,11 @@ def _gen_frechet():
     return frechet.generate(core.REPO, core.LEAN / "Pun/Gen/FrechetGen.lean")
 
 
+def _gen_corners():
+    from .translator import frechet
+    return frechet.generate_corners(core.REPO, core.LEAN / "Pun/Gen/CornersGen.lean")
+
+
 def run(ctx: core.Check):
     core.stub_moments()
     ctx.rule = ("raw frechet_op / naive rule on duck-typed operands: exhaustive 5-value grid boxes for n=1,2, random n=3..6; "
@@ -325,8 +330,8 @@ def run(ctx: core.Check):
     ctx.assumptions = ["general (non-permutation) couplings are mixtures of permutations (Birkhoff) — cited, not proved",
                        "binary64 rounding not modelled; integer streams agree exactly for + - *, others within ulp tolerance",
                        "moments (LP) are stubbed in the harness process; they are C04's concern"]
-    ctx.lean_stage(["Pun.Lemmas.Frechet", "Pun.Lemmas.PBoxList", "Pun.Lemmas.PBoxFrechet", "Pun.Lemmas.PBoxMk", "Pun.Lemmas.PBoxNeg", "Pun.Lemmas.PBoxFrechet2", "Pun.Lemmas.PBoxRecip", "Pun.Props.C02", "Pun.Props.C02Gen"],
-                   generators=[("operation.frechet_op loop", _gen_frechet)])
+    ctx.lean_stage(["Pun.Lemmas.Frechet", "Pun.Lemmas.PBoxList", "Pun.Lemmas.PBoxFrechet", "Pun.Lemmas.PBoxMk", "Pun.Lemmas.PBoxNeg", "Pun.Lemmas.PBoxFrechet2", "Pun.Lemmas.PBoxRecip", "Pun.Props.C02", "Pun.Props.C02Gen", "Pun.Props.C03Gen"],
+                   generators=[("operation.frechet_op loop", _gen_frechet), ("operation.perfect/opposite/independent_op corner rules", _gen_corners)])
     cases = gen_cases(ctx)
     replies = core.model_batch("C02", [wire(c) for c in cases])
     rng = ctx.rng
